@@ -184,6 +184,14 @@ def check_history(case):
     chain = None
     mon = Monitor(case["us"])
     real = torch.bernoulli
+    entered = []          # (number of monitored draws made before gibbs_steps was entered, clone of its start state)
+    orig_gs = state.rbm_am.gibbs_steps
+
+    def gs_spy(k, initial_state, overwrite=False):
+        entered.append((len(mon.calls), initial_state.detach().clone().double()))
+        return orig_gs(k, initial_state, overwrite=overwrite)
+
+    state.rbm_am.gibbs_steps = gs_spy
     labels = set()
     steps_total = 0
     try:
@@ -194,19 +202,20 @@ def check_history(case):
                 am = R.net_from_case(case["alt"])
                 continue
             mon.calls = []
+            entered.clear()
             k = op["k"]
             if op["op"] == "fresh":
                 res = state.sample(k, num_samples=op["m"])
-                require(len(mon.calls) >= 1 or k == 0, "history:no-draws", "no draw observed")
-                if not mon.calls:
+                require(len(entered) == 1, "history:gibbs-steps-calls", "sample() must run the chains through the amplitude network's gibbs_steps exactly once")
+                ndraws_before, start = entered[0]
+                # the property does not fix HOW the random start is drawn; the start is whatever gibbs_steps was entered with
+                require(tuple(start.shape) == (op["m"], n) and bool(torch.all((start == 0) | (start == 1))), "history:fresh-start",
+                        "without an initial state the chains must start from num_samples rows of num_visible bits", shape=list(start.shape))
+                calls, given, overwrite = mon.calls[ndraws_before:], None, False
+                if k > 0 and not calls:
                     labels.add("monitor-inapplicable")
                     chain = res
                     continue
-                p0, d0 = mon.calls[0]
-                # the property does not fix the law of the random start (the code uses fair coins); only its shape
-                require(p0.shape == (op["m"], n), "history:fresh-start",
-                        "without an initial state the chains must start from num_samples random rows of num_visible bits", shape=list(p0.shape))
-                start, calls, given, overwrite = d0, mon.calls[1:], None, False
             else:
                 if op["op"] == "continue" and chain is None:
                     continue
@@ -273,6 +282,7 @@ def check_history(case):
             chain = res
     finally:
         torch.bernoulli = real
+        state.rbm_am.gibbs_steps = orig_gs
     nt = nt_arch(sc) and steps_total >= 1 and mon.low and mon.high
     return {"nontrivial": nt, "labels": sorted(labels) + [f"type={sc['type']}"] + (["multi-call"] if sum(1 for o in case["ops"] if o["op"] != "reparam") > 1 else [])}
 
@@ -311,6 +321,14 @@ def check_empirical(case):
             freq=f.tolist(), ref=Tk[case["v0"]].tolist())
     fresh = state.sample(case["k"], num_samples=case["m"])
     require(fresh.shape == (case["m"], n) and bool(torch.all((fresh == 0) | (fresh == 1))), "empirical:fresh-shape", "sample(k, num_samples=m) is not an (m, n) 0/1 array")
+    # the default start is a RANDOM state: with k = 0 (the start itself is returned) 256 chains cannot all coincide, and two seeds differ
+    qucumber.set_random_seed(case["torch_seed"], cpu=True, gpu=False, quiet=True)
+    s1 = state.sample(0, num_samples=256)
+    qucumber.set_random_seed(case["torch_seed"] + 1, cpu=True, gpu=False, quiet=True)
+    s2 = state.sample(0, num_samples=256)
+    require(s1.shape == (256, n) and bool(torch.all((s1 == 0) | (s1 == 1))), "empirical:fresh-shape", "sample(0, num_samples=256) is not a (256, n) 0/1 array")
+    require(len({tuple(r) for r in s1.tolist()}) > 1 and not torch.equal(s1, s2), "empirical:default-start-not-random",
+            "the default start state is not random: 256 fresh chains coincide, or two different seeds give the same 256 start states")
     return {"nontrivial": nt_arch(sc), "labels": gen.arch_label(sc) + [f"k={case['k']}"]}
 
 
